@@ -4,10 +4,16 @@ mod cf;
 mod common;
 mod corpus;
 mod props;
+mod repl_leg;
 
 use common::*;
 
 fn main() {
+    if std::env::var("XMC_REPL_SHIM").is_ok() {
+        // child process of the REPL legs: behave exactly like the xeh binary on the piped stdin
+        let code = if xeh::repl::run_with_args().is_err() { 1 } else { 0 };
+        std::process::exit(code);
+    }
     let args: Vec<String> = std::env::args().collect();
     if args.len() < 2 {
         eprintln!("usage: xmc <C01..C18> [quick|thorough]");
